@@ -9,6 +9,8 @@ ops:  R[hex]  status request (+ junk)     P[hex]  ping, hex = bytes after the pa
 Output: what the client saw: `resp:proto=…,online=…,max=…`, `echo:<hex>` … then `closed` (or `open`).
 The verdict is the spec evaluated on the implementation's output: at most one well-formed response, advertised
 protocol = client's if supported else newest, online = the player count, echo byte-identical, closed at the end.
+`hist` lines (see below) drive the REAL player registry through a register/unregister history and judge the
+`players.online` of a status exchange after every step against the number of registered players.
 -/
 namespace Gate.C43
 open Gate
@@ -60,6 +62,30 @@ def step' (c : Case) : String × String :=
         (expected, verdict e expected c.impl)
       | none, _ => ("bad-op", "-")
     | _, _, _, _ => ("bad-op", "-")
+  | "hist", [oms, ks, decls, ops] =>
+    -- hist <onlineMode 0/1> <kickExisting 0/1> <name:uuid,…> <r<i>|u<i>,…> : a registry history on a fresh proxy;
+    -- after every step one status exchange (players.online) and len(Players()) are observed
+    let ds := (decls.splitOn ",").filterMap fun d => match d.splitOn ":" with
+      | [n, u] => u.toNat?.map fun u => (n.toLower, u)
+      | _ => none
+    let a : Attrs := { nameOf := fun c => (ds.getD c ("?", 0)).1, idOf := fun c => (ds.getD c ("?", 0)).2 }
+    let rops := (ops.splitOn ",").mapM fun o => match o.toList with
+      | 'r' :: r => (String.ofList r).toNat?.map RegOp.reg
+      | 'u' :: r => (String.ofList r).toNat?.map RegOp.unreg
+      | _ => none
+    match rops with
+    | some rops =>
+      let kick := oms = "1" && ks = "1"
+      let states := (List.range rops.length).map fun i => regRun a kick {} (rops.take (i + 1))
+      let on := ",".intercalate (states.map fun r => toString (playerCount r))
+      let pl := ",".intercalate (states.map fun r => toString r.live.length)
+      let expected := "on=" ++ on ++ " pl=" ++ pl
+      let implOn := ((c.impl.splitOn " ").head?.getD "").drop 3 |>.toString
+      let implPl := (((c.impl.splitOn " ").drop 1).head?.getD "").drop 3 |>.toString
+      let v := if implOn != implPl then "viol:online-count"
+        else if c.impl = expected then "ok" else "viol:registry-history"
+      (expected, v)
+    | none => ("bad-op", "-")
   | _, _ => ("bad-op", "-")
 
 end Gate.C43
